@@ -500,13 +500,15 @@ impl BaseFilter {
     }
 }
 
-fn clamp_adjustment(current: f64, error: f64, bound: f64) -> f64 {
-    if current + error > bound {
-        bound - current
-    } else if current + error < -bound {
-        -bound - current
+/// The frequency closest to `current + error` that lies within `-bound..=bound`.
+fn clamp_frequency(current: f64, error: f64, bound: f64) -> f64 {
+    let frequency = current + error;
+    if frequency > bound {
+        bound
+    } else if frequency < -bound {
+        -bound
     } else {
-        error
+        frequency
     }
 }
 
@@ -637,13 +639,17 @@ impl Filter for KalmanFilter {
 impl KalmanFilter {
     fn change_frequency<C: crate::Clock>(&mut self, target: f64, clock: &mut C) {
         if let Some(cur_frequency) = self.cur_frequency {
-            let error_ppm = clamp_adjustment(
+            // Clamp the frequency itself rather than the adjustment: adding a
+            // rounded adjustment back onto the current frequency can land just
+            // outside of the configured bound.
+            let new_frequency = clamp_frequency(
                 cur_frequency,
                 target - self.running_filter.freq_offset() * 1e6,
                 self.config.max_freq_offset,
             );
-            if let Ok(time) = clock.set_frequency(cur_frequency + error_ppm) {
-                self.cur_frequency = Some(cur_frequency + error_ppm);
+            let error_ppm = new_frequency - cur_frequency;
+            if let Ok(time) = clock.set_frequency(new_frequency) {
+                self.cur_frequency = Some(new_frequency);
                 self.running_filter.absorb_frequency_steer(
                     error_ppm,
                     time,
